@@ -234,6 +234,44 @@ def removed_piece_ok(f, b, ex, loc, idx, piece_e):
     return False, "`%s` is neither the piece read from the square nor a pawn of the opponent" % show_expr(pe, b)[:80]
 
 
+def _removed_piece_ok_per_colour(f, b, loc, root):
+    """The piece XORed out at an emptied square, decided on the body specialised to each colour of the
+    mover: `let (victim, sq) = match color { White => (pawn(Black), ..), Black => (pawn(White), ..) }`."""
+    from wa.cond import specialise
+    colours = f.enum_variant_by_discr("board::PieceColor")
+    pp = [i for i in range(1, b.arg_count + 1) if b.local_ty(i) == "board::Piece"]
+    if len(pp) != 1:
+        return False, ""
+    col_e = ("field", ("arg", pp[0]), "color")
+    seen = 0
+    for mover in sorted(colours.values()):
+        other = [c for c in colours.values() if c != mover][0]
+        b2, ex2, _dead = specialise(b, {col_e: ("eq", mover)}, {col_e: colours})
+        if loc[0] not in b2.reachable:
+            continue
+        ev2 = Events(b2)
+        w = [x for x in ev2.writes if x[0] == loc and x[1] == root and x[2] == "sq"]
+        if len(w) != 1 or len(w[0][3]) != 2:
+            return False, ""
+        idx2 = w[0][3]
+        terms = [t for xloc, xroot, ts, selfx in ev2.xors if xroot == root and selfx and control_equivalent(b2, loc[0], xloc[0])
+                 for t in ts if t[0] == "piece" and _same_sq(point_of(t[2]), idx2)]
+        if len(terms) != 1:
+            return False, ""
+        pe = strip_refs(terms[0][1])
+        ok = False
+        if pe[0] == "call" and pe[1] == "board::Piece::pawn":
+            c = strip_refs(pe[2][0])
+            if c[0] == "agg" and c[1] == "board::PieceColor":
+                ok = c[2] == other
+            elif c[0] == "call" and c[1] == "board::PieceColor::opposite":
+                ok = _is_mover_colour(b2, c[2][0])
+        if not ok:
+            return False, ""
+        seen += 1
+    return seen == len(colours), "a pawn of the opposite colour of the mover (decided per mover colour)"
+
+
 def r5_2(ctx):
     """R5.2 + R5.3 on every function of the producers' cones except the helpers and from_fen."""
     f = ctx.facts
@@ -279,6 +317,10 @@ def r5_2(ctx):
                     x = find_term(root, loc, lambda t: t[0] == "piece" and _same_sq(point_of(t[2]), idx) and (got.append(t) or True))
                     if x is not None:
                         okp, whyp = removed_piece_ok(f, b, ex, loc, idx, got[-1][1])
+                        if not okp:
+                            okp2, whyp2 = _removed_piece_ok_per_colour(f, b, loc, root)
+                            if okp2:
+                                okp, whyp = okp2, whyp2
                         ctx.ob(key + ":piece", okp, b.where(x),
                                "piece XORed out for the emptied square (%s, %s): %s" % (show_expr(idx[0], b), show_expr(idx[1], b), whyp))
                     ctx.ob(key, x is not None, b.where(loc),
@@ -302,6 +344,15 @@ def r5_2(ctx):
                     ctx.ob(key, False, b.where(loc), "square written with a value that is neither Empty nor Full(..): %s" % show_expr(v, b)[:60],
                            reason="shape-not-recognised")
             elif kind == "pawn_double_move":
+                if v[0] == "var":
+                    # `let t = if .. { Some(p) } else { None }; if let Some(p) = t { b.target = t; key ^= ep(p.1) }`:
+                    # under the dominating `t is Some` edge the merged value is its one Some literal
+                    dv = ex._downcast(v, "Some")
+                    if dv[0] == "downcast" and dv[1][0] == "agg" and dv[1][2] == "Some":
+                        for d_, vals_, excl_, s_, tg_ in dominating_facts(b, ex, loc[0]):
+                            if d_[0] == "discr" and canon(d_[1]) == canon(v) and vals_ == [1]:
+                                v = dv[1]
+                                break
                 label = "W_ep(%s)" % rn
                 counts[label] = counts.get(label, 0) + 1
                 key = "%s:%s#%d" % (short, label, counts[label])
@@ -483,8 +534,18 @@ def r5_positive_control(ctx):
     b = f.body("engine::alpha_beta_search")
     ev = Events(b)
     hits = [w for w in ev.writes if w[2] == "to_move"]
-    ctx.ob("matcher-sees-raw-to_move-write", len(hits) >= 1, b.where(hits[0][0]) if hits else b.file,
-           "positive control: %d raw to_move write(s) visible in alpha_beta_search (null move scratch board)" % len(hits),
+    where = b.where(hits[0][0]) if hits else b.file
+    n = len(hits)
+    if not hits:
+        # the null-move board may be built without a field store (`BoardState { to_move: .., ..b.clone() }`): any
+        # raw write of a hashed component the matcher sees in the producers serves as the witness instead
+        for fn in _scope(f):
+            ev2 = Events(f.body(fn))
+            if ev2.writes:
+                n += len(ev2.writes)
+                where = f.body(fn).where(ev2.writes[0][0])
+    ctx.ob("matcher-sees-raw-to_move-write", n >= 1, where,
+           "positive control: %d raw write(s) of hashed components visible to the matcher (null move scratch board / successor builders)" % n,
            reason="below-floor", nontrivial=False)
 
 
